@@ -8,7 +8,7 @@ from .. import logic
 from ..program import FuncModel, call_arg
 from ..report import Check
 from ..repo import AnalysisError, dotted, own_walk, text
-from .common import SD_MOD, GrowthModel, callee_name, fresh_diagrams, is_empty_list, is_false, is_none, is_true
+from .common import paths_imply, dom_pc_canon, frame_pushes, schedule_nodes, unwrap_order, SD_MOD, GrowthModel, callee_name, fresh_diagrams, is_empty_list, is_false, is_none, is_true
 
 ALG = "biobalm._sd_algorithms."
 
@@ -106,16 +106,23 @@ def g_dfs(ck: Check, rule: str) -> None:
         if fp is None:
             raise AnalysisError(f"anchor vanished: frame pop of {f.qualname}")
         cur, L = [text(t) for t in fp.targets[0].elts]
-        # the list is the complete, sorted successor list of the current node
-        defs = [n for n in ast.walk(loop) if isinstance(n, ast.Assign) and text(n.targets[0]) == L]
+        # the list is the complete successor list of the current node (reordering / copying wrappers allowed)
+        defs = [n for n in ast.walk(loop) if isinstance(n, (ast.Assign, ast.AnnAssign)) and n is not fp and n.value is not None
+                and text(n.targets[0] if isinstance(n, ast.Assign) else n.target) == L]
         probs = []
-        srcs = [d for d in defs if isinstance(d.value, ast.Call) and callee_name(d.value) == "node_successors"]
-        if len(srcs) != 1 or text(srcs[0].value.args[0]) != cur or not is_true(call_arg(srcs[0].value, 1, "compute")):
+
+        def is_src(e):
+            e = unwrap_order(e)
+            return isinstance(e, ast.Call) and callee_name(e) == "node_successors"
+        srcs = [d for d in defs if is_src(d.value)]
+        sc = unwrap_order(srcs[0].value) if srcs else None
+        if len(srcs) != 1 or text(sc.args[0]) != cur or not is_true(call_arg(sc, 1, "compute")):
             probs.append("the successor list is not node_successors(current node, compute=True)")
         for d in defs:
             if d in srcs:
                 continue
-            if not (isinstance(d.value, ast.Call) and callee_name(d.value) == "sorted" and text(d.value.args[0]) == L):
+            inner = unwrap_order(d.value)
+            if not (isinstance(inner, ast.Name) and inner.id == L and inner is not d.value):
                 probs.append(f"line {d.lineno}: successor list rewritten as `{text(d.value)[:50]}` (elements may be lost)")
         ck.ob(rule, fm, loop, not probs, "; ".join(probs) if probs else "frame list = all successors of the current node",
               key="successor list")
@@ -131,13 +138,18 @@ def g_dfs(ck: Check, rule: str) -> None:
             if isinstance(st, ast.Assign) and isinstance(st.targets[0], ast.Name):
                 v = st.targets[0].id
                 # pushed as a fresh frame on every path from here to the next iteration?
-                pushes = [fm.cfgn(c) for c in ast.walk(loop) if isinstance(c, ast.Call) and isinstance(c.func, ast.Attribute)
-                          and c.func.attr == "append" and c.args and isinstance(c.args[0], ast.Tuple)
-                          and c.args[0].elts and text(c.args[0].elts[0]) == v]
+                pushes = schedule_nodes(fm, loop, v, {seen} if seen else set())
                 if pushes:
                     from .c13 import _within
                     hdr = fm.cfg.loop_header[loop].id
                     scheduled = hdr not in _within(fm, loop, cn, {p.id for p in pushes})
+                    if scheduled:
+                        # the rest of the list stays on the stack with its node
+                        fps = frame_pushes(fm, loop, cur, L)
+                        kept = bool(fps) and hdr not in _within(fm, loop, cn, {p.id for p in fps})
+                        ck.ob(rule, fm, st, kept, "the remaining successors stay on the stack" if kept else
+                              f"after `{text(st)}` the frame ({cur}, {L}) is not pushed back on every path: the remaining "
+                              f"successors of `{cur}` are never visited", key=f"frame kept after {text(st)}")
             if scheduled:
                 ck.ob(rule, fm, st, True, "popped successor is scheduled")
                 continue
@@ -279,78 +291,100 @@ def g_level(ck: Check, rule: str) -> None:
             raise AnalysisError(f"anchor vanished: node_successors(compute=True) in {f.qualname}")
         c = calls[0]
         cn = fm.cfgn(c)
-        loops = [l for l in fm.cfg.enclosing_loops(cn) if isinstance(l, ast.For)]
-        if not loops:
+        cur = text(c.args[0])
+        # the per-node loop: `for cur in <level>` or `while <queue>: cur = <queue>.pop*()`
+        loop = None
+        for l in fm.cfg.enclosing_loops(cn):
+            if isinstance(l, ast.For) and text(l.target) == cur:
+                loop = l
+                break
+            if isinstance(l, ast.While):
+                draws = [x for x in l.body if isinstance(x, ast.Assign) and text(x.targets[0]) == cur and isinstance(x.value, ast.Call)
+                         and isinstance(x.value.func, ast.Attribute) and x.value.func.attr in ("pop", "popleft")]
+                if draws:
+                    loop = l
+                    break
+        if loop is None:
             raise AnalysisError(f"anchor vanished: per-node loop of {f.qualname}")
-        loop = loops[0]
         ids = fm.cfg.loop_nodes[loop]
-        cur = text(loop.target)
-        if text(c.args[0]) != cur:
-            ck.ob(rule, fm, f.stmt_of(c), False, "successors are computed for a node other than the loop's node")
+        sdp = f.params()[0]
+        space_key = f"FIELD<{sdp}|{cur}|space>"
         # (1) node-level skips before the successors are computed
         tgt_p = next((p for p in f.params() if p == "target"), None)
+        from .c13 import _within, _tbranch
+        # a node whose children were all created and pushed on the way is not "skipped" (source shortcut)
+        pushes = {fm.cfgn(x).id for x in ast.walk(loop) if isinstance(x, ast.Call) and isinstance(x.func, ast.Attribute)
+                  and x.func.attr in ("add", "append", "appendleft") and x.args
+                  and any(isinstance(y, ast.Call) and callee_name(y) == "_ensure_node" and text(y.args[0]) == cur
+                          for y in ast.walk(x))}
+        # a loop over itertools.product(range(k>=1), ...) runs at least once: if every iteration pushes,
+        # its exhausted edge is only reached after a push
+        cuts = set(pushes)
+        for il in ast.walk(loop):
+            if isinstance(il, ast.For) and il is not loop and _nonempty_product(fm, il):
+                ih = fm.cfg.loop_header[il]
+                tb = _tbranch(fm, il)
+                if ih.id not in _within(fm, il, tb, pushes):
+                    for sx in fm.cfg.g.successors(ih.id):
+                        if fm.cfg.nodes[sx].kind == "branch" and not fm.cfg.nodes[sx].pol:
+                            cuts.add(sx)
+        allowed = []
+        if "EXPANDED" in reasons:
+            allowed.append(logic.B(f"T:FIELD<{sdp}|{cur}|expanded>"))
+        if "DISJOINT" in reasons and tgt_p:
+            allowed.append(logic.B(f"none:intersect({space_key}, {tgt_p})"))
+        if "INSIDE" in reasons and tgt_p:
+            x, y = sorted([space_key, tgt_p])
+            allowed.append(logic.And(logic.B(f"T:is_subspace({space_key}, {tgt_p})"), logic.Not(logic.B(f"eq:{x}|{y}"))))
+        want = logic.Or(*allowed) if allowed else logic.FALSE
+        hdr = fm.cfg.loop_header[loop]
+        start = _tbranch(fm, loop)
+        why = paths_imply(fm, start, hdr, want, None, stop=cuts | {cn.id}, canon=True)
+        ck.ob(rule, fm, loop, why is None, "a node is left unexpanded only for a permitted reason" if why is None else
+              f"a node of the current level is skipped (its successors are never enqueued): {why}; permitted: "
+              f"{' | '.join(logic.show(a_)[:70] for a_ in allowed) or 'never'}. "
+              f"Nodes below it stay unexplored although the expansion reports completion", key="node-level skips")
         for n in ast.walk(loop):
-            if isinstance(n, ast.Continue) and fm.cfg.enclosing_loops(fm.cfgn(n))[0] is loop and n.lineno < c.lineno:
-                # a node whose children were all created and pushed on the way here is not "skipped"
-                from .c13 import _within, _tbranch
-                pushes = {fm.cfgn(x).id for x in ast.walk(loop) if isinstance(x, ast.Call) and isinstance(x.func, ast.Attribute)
-                          and x.func.attr in ("add", "append") and "level" in text(x.func.value)
-                          and any(isinstance(y, ast.Call) and callee_name(y) == "_ensure_node" and text(y.args[0]) == cur
-                                  for y in ast.walk(x))}
-                # a loop over itertools.product(range(k>=1), ...) runs at least once: if every iteration pushes,
-                # its exhausted edge is only reached after a push
-                cuts = set(pushes)
-                for il in ast.walk(loop):
-                    if isinstance(il, ast.For) and il is not loop and _nonempty_product(fm, il):
-                        ih = fm.cfg.loop_header[il]
-                        tb = _tbranch(fm, il)
-                        if ih.id not in _within(fm, il, tb, pushes):
-                            for sx in fm.cfg.g.successors(ih.id):
-                                if fm.cfg.nodes[sx].kind == "branch" and not fm.cfg.nodes[sx].pol:
-                                    cuts.add(sx)
-                if pushes and fm.cfgn(n).id not in _within(fm, loop, _tbranch(fm, loop), cuts):
-                    ck.ob(rule, fm, n, True, "node left after its children were created and pushed (source shortcut)")
-                    continue
-                pc = dom_pc_text(fm, fm.cfgn(n), ids)
-                allowed = []
-                if "EXPANDED" in reasons:
-                    allowed.append(logic.B(f"T:sd.node_data({cur})['expanded']"))
-                if "DISJOINT" in reasons and tgt_p:
-                    allowed.append(logic.B(f"none:intersect(node_space, {tgt_p})"))
-                if "INSIDE" in reasons and tgt_p:
-                    x, y = sorted(["node_space", tgt_p])
-                    allowed.append(logic.And(logic.B(f"T:is_subspace(node_space, {tgt_p})"), logic.Not(logic.B(f"eq:{x}|{y}"))))
-                want = logic.Or(*allowed) if allowed else logic.FALSE
-                ok = logic.implies(pc, want)
-                if ok and ("DISJOINT" in reasons or "INSIDE" in reasons):
-                    # node_space must be the space of the loop's node
-                    sd_ = fm.single_def("node_space", fm.cfgn(n))
-                    ok = bool(sd_) and fm.key(sd_[1], sd_[0]) == f"FIELD<sd|{cur}|space>"
-                ck.ob(rule, fm, n, ok, "node left unexpanded for a permitted reason" if ok else
-                      f"a node of the current level is skipped (its successors are never enqueued) under "
-                      f"`{logic.show(pc)[:160]}`; permitted: {' | '.join(logic.show(a)[:70] for a in allowed) or 'never'}. "
-                      f"Nodes below it stay unexplored although the expansion reports completion")
+            if isinstance(n, ast.Break) and fm.cfg.enclosing_loops(fm.cfgn(n))[0] is loop:
+                ck.ob(rule, fm, n, False, "`break` abandons the remaining nodes of the level")
         # (2) enqueueing of the successors
         if key.endswith("expand_source_blocks"):
             continue  # which successors enter the next level is the block choice (rule B)
-        v = f.stmt_of(c).targets[0].id if isinstance(f.stmt_of(c), ast.Assign) else None
-        inner = [l for l in ast.walk(loop) if isinstance(l, ast.For) and l is not loop and v and text(l.iter) == v]
+        st_c = f.stmt_of(c)
+        v = None
+        if isinstance(st_c, (ast.Assign, ast.AnnAssign)) and st_c.value is not None and unwrap_order(st_c.value) is c:
+            v = text(st_c.targets[0] if isinstance(st_c, ast.Assign) else st_c.target)
+        # other definitions of the holder may only reorder it
         probs = []
+        if v:
+            for d in ast.walk(loop):
+                if isinstance(d, (ast.Assign, ast.AnnAssign)) and d is not st_c and d.value is not None \
+                        and text(d.targets[0] if isinstance(d, ast.Assign) else d.target) == v:
+                    inner_e = unwrap_order(d.value)
+                    if not (isinstance(inner_e, ast.Name) and inner_e.id == v and inner_e is not d.value):
+                        probs.append(f"line {d.lineno}: successor list rewritten as `{text(d.value)[:50]}` (elements may be lost)")
+
+        def ranges_over_successors(l: ast.For) -> bool:
+            it = unwrap_order(l.iter)
+            return it is c or (v is not None and isinstance(it, ast.Name) and it.id == v)
+        inner = [l for l in ast.walk(loop) if isinstance(l, ast.For) and l is not loop and ranges_over_successors(l)]
         if len(inner) != 1:
             probs.append("the successors are not enqueued by one loop over the (sorted) successor list")
         else:
             il = inner[0]
-            s = text(il.target)
-            pushes = [x for x in ast.walk(il) if isinstance(x, ast.Call) and isinstance(x.func, ast.Attribute)
-                      and x.func.attr in ("append", "add") and x.args and text(x.args[0]) == s and "level" in text(x.func.value)]
+            sname = text(il.target)
+            seen = _seen_name(fm, il)
+            pushes = schedule_nodes(fm, il, sname, {seen} if seen else set())
             if not pushes:
                 probs.append("successors are not pushed to the next level")
-            for p in pushes:
-                pc = dom_pc_text(fm, fm.cfgn(p), fm.cfg.loop_nodes[il])
-                seen = _seen_name(fm, il)
-                want = logic.Not(logic.B(f"in:{s}|{seen}"))
-                if not logic.equivalent(pc, want):
-                    probs.append(f"a successor is enqueued only under `{logic.show(pc)}` (expected: not seen before)")
+            else:
+                from .c13 import _tbranch
+                hdr = fm.cfg.loop_header[il]
+                goal = logic.B(f"in:{sname}|{seen}") if seen else logic.FALSE
+                tr = logic.Translator(lambda e: text(e))
+                why = paths_imply(fm, _tbranch(fm, il), hdr, goal, tr, stop={p.id for p in pushes})
+                if why is not None:
+                    probs.append(f"a successor is not enqueued although it was not seen before: {why}")
             for x in ast.walk(il):
                 if isinstance(x, (ast.Break, ast.Return)):
                     probs.append(f"line {x.lineno}: `{text(x)}` abandons the remaining successors")
